@@ -26,6 +26,11 @@ def plans_core(prop, tier, seed):
                                             Fn="HASH" if seed % 2 else "LWW", MaxE=16, MaxOps=28, PCs={1, 2, 4}),
              simulate=(12 if q else 200, 28), mode="all", complete=True),
     ]
+    # refused appends (identity switched to a writer the log's own controller denies) and rejected merges
+    # (candidates by a denied writer) in the middle of histories: the log must stay sound afterwards
+    plans.append(dict(name="exhDeny", consts=base_consts(NR=3, Writer0=[1, 2, 3], Denied=[{2}, {1}, set()], Writers={2},
+                                                        MaxE=4, MaxOps=6 if q else 7),
+                      max_scripts=25000 if q else 400000))
     if not q:
         plans.append(dict(name="exhLWW4", consts=base_consts(NR=4, Writer0=[1, 2, 3, 1], Lid=["X"] * 4,
                                                              Denied=[set()] * 4, MaxE=4, MaxOps=5)))
